@@ -639,6 +639,14 @@ pzgssvx(int_t nprocs, superlumt_options_t *superlumt_options, SuperMatrix *A,
 	/* ------------------------------------------------------------
 	   Compute the solution matrix X.
 	   ------------------------------------------------------------*/
+	/* A stored row-wise is factored as AA = A**T.  A**H * X = B is then
+	   conj(AA) * X = B, i.e. AA * conj(X) = conj(B): solve and refine the
+	   conjugated system with AA and conjugate back afterwards. */
+	if ( A->Stype == SLU_NR && superlumt_options->trans == CONJ )
+	    for (j = 0; j < nrhs; j++)
+		for (i = 0; i < B->nrow; i++)
+		    Bmat[i + j*ldb].i = -Bmat[i + j*ldb].i;
+
 	for (j = 0; j < nrhs; j++)    /* Save a copy of the right hand sides */
 	    for (i = 0; i < B->nrow; i++)
 		Xmat[i + j*ldx] = Bmat[i + j*ldb];
@@ -656,6 +664,13 @@ pzgssvx(int_t nprocs, superlumt_options_t *superlumt_options, SuperMatrix *A,
 	zgsrfs(trant, AA, L, U, perm_r, perm_c, *equed,
 	       R, C, B, X, ferr, berr, &Gstat, info);
 	utime[REFINE] = SuperLU_timer_() - t0;
+
+	if ( A->Stype == SLU_NR && superlumt_options->trans == CONJ )
+	    for (j = 0; j < nrhs; j++)
+		for (i = 0; i < B->nrow; i++) {
+		    Bmat[i + j*ldb].i = -Bmat[i + j*ldb].i;
+		    Xmat[i + j*ldx].i = -Xmat[i + j*ldx].i;
+		}
 
 	/* ------------------------------------------------------------
 	   Transform the solution matrix X to a solution of the original
